@@ -23,7 +23,7 @@ def inputs(rng, n):
 
 def run(res, args):
     res.rule = ("the real HandleMessages entry points of rtcmfilter and displayrtcm3 (reached with go test -overlay) on segment "
-                "streams with at least one message, writer latencies 0 / 0.2 / 2 / 20 ms and 1.2 s per call, several input chunkings; "
+                "streams with at least one message, writer latencies 0 / 0.2 / 2 / 20 ms, 150-500 ms and 1.2 s per call, several input chunkings, last bytes returned together with EOF, silences of 30-250 ms before the end of input; "
                 "observation = bytes held by the writer at the instant the function returns and after quiescence; "
                 "non-trivial = latency > 0 and at least one message")
     res.assumptions = ["the writer latencies sample the schedules; the model's bad schedule (main returns while the writer still holds the "
@@ -47,8 +47,10 @@ def run(res, args):
     for s in ins:
         lat = rng.choice(lats)
         ch = rng.choice(["1", "7", "4096", "3.1.50", "64"])
-        fcases.append("filter %s %d %d %d %s" % (gen.hx(s), rng.getrandbits(1), rng.getrandbits(1), lat, ch))
-        dcases.append("display %s %d %s" % (gen.hx(s), lat, ch))
+        opt = rng.choice(["-", "-", "e", "p30", "p120", "e,p30"])
+        res.count("reader options " + opt)
+        fcases.append("filter %s %d %d %d %s %s" % (gen.hx(s), rng.getrandbits(1), rng.getrandbits(1), lat, ch, opt))
+        dcases.append("display %s %d %s %s" % (gen.hx(s), lat, ch, opt))
         meta.append((s, lat))
     # a writer that blocks for seconds per call (the wait must not be bounded by a timer)
     slow = [b"".join(gen.rand_frame(rng, small=True) for _ in range(3)) for _ in range(2 if res.tier == "quick" else 6)]
@@ -56,7 +58,16 @@ def run(res, args):
         fcases.append("filter %s 0 0 %d 4096" % (gen.hx(s), 1200000))
         dcases.append("display %s %d 4096" % (gen.hx(s), 1200000))
         meta.append((s, 1200000))
-    ins = ins + slow
+    # a slow writer and a silence between the last bytes and the end of input (output still in flight in some
+    # background flush when the end of input arrives)
+    quiet = [b"".join(gen.rand_frame(rng, small=True) for _ in range(rng.randint(1, 4))) for _ in range(4 if res.tier == "quick" else 16)]
+    for k, s in enumerate(quiet):
+        lat = [300000, 150000, 500000, 300000][k % 4]
+        opt = ["p60", "p40", "p150", "e,p250"][k % 4]
+        fcases.append("filter %s 0 0 %d 4096 %s" % (gen.hx(s), lat, opt))
+        dcases.append("display %s %d 4096 %s" % (gen.hx(s), lat, opt))
+        meta.append((s, lat))
+    ins = ins + slow + quiet
     # expected output from sequential framing (model), cross-checked with the implementation's stream handler
     scases = ["stream %d debug %s" % (framing.T0, gen.hx(s)) for s in ins]
     simpl, smodel = framing.run_both(res, "stream", scases)
